@@ -286,9 +286,10 @@ def injection_sweep(worlds):
                     for iflag in (0, 0x08):
                         for rflag in (0, 0x20):
                             for exch in (34, 35, 36, 37, 0, 255):
-                                if exch == 34 and not rflag:
-                                    continue     # creates state by design; covered by the exploration
                                 for mid, body in ((0, b''), (1, b''), (0, struct.pack('>BBH', 0, 0, 400) + b'x' * 8)):
+                                    if exch == 34 and not rflag and body:
+                                        continue     # (an IKE_SA_INIT request creates an IKE_SA by design; the header-only
+                                        # ones are here for what they must NOT do: touch the IKE_SAs already held)
                                     first = 40 if body else 0
                                     data = struct.pack('>8s8s4B2L', a, b, first, 0x20, exch, iflag | rflag, mid, 28 + len(body)) + body
                                     ev = ('inject', name, data, peer_addr)
